@@ -13,7 +13,7 @@ import ast
 from sa.model import AnalysisError, FuncInfo
 from sa.ctx import Ctx, short, stmt_key
 from sa.cfg import NORMAL, describe_path
-from sa.report import Report
+from sa.report import Report, section
 from sa.effects import Effects
 from sa.sides import SideAnalysis, show
 from sa.util import cfg_root, node_has_call, node_contains, has_fact
@@ -242,18 +242,18 @@ def node_has_call_in(stmt, name) -> bool:
 
 def run(ctx: Ctx, rep: Report, tier: str):
     c = C07(ctx, rep)
-    c.r1()
+    section(rep, c.r1)
     rep.rule("C07.R1b", "every normal path of a sync step and of an intake step passes storage_commit() after the state-changing calls "
              "(same query as C08.R6)", expect_min=5)
     C08(ctx, rep).r6("C07.R1b")
-    c.r2()
+    section(rep, c.r2)
     rep.rule("C07.R3", "the event cursor is persisted only after the loop over provider.events() is exhausted; the `stopped` early "
              "return skips the write (same query as C06.R1)", expect_min=1)
     from rules.C06 import C06
     C06(ctx, rep).r1("C07.R3")
-    c.r4()
-    c.r5()
-    c.r6()
+    section(rep, c.r4)
+    section(rep, c.r5)
+    section(rep, c.r6)
     from rules.common import alias
     from rules.C06 import C06
     alias(rep, ["C06.R5"], "C07.R7", "what a restart reads back is complete: the loader re-indexes every stored entry on both sides and re-queues exactly the entries whose "
